@@ -16,13 +16,15 @@ INTERNAL = 2000000000
 
 
 class Node:
-    __slots__ = ("id", "grid", "sets", "src", "qflag")
+    __slots__ = ("id", "grid", "sets", "srcs", "qflag")
 
     def __init__(self, id_, grid, sets, src=None):
         self.id = id_  # id in this SE
         self.grid = grid  # True: 6 DOF, False: scalar point
         self.sets = sets  # one base-set letter per DOF
-        self.src = src  # (child se, index of the node among the child's a-set nodes) or None
+        # (child se, index of the node among the child's a-set nodes): empty for an own node, two entries for a
+        # boundary grid that two upstream SEs are attached to
+        self.srcs = [src] if src else []
         self.qflag = None  # per DOF: expected upqsetpv flag in this SE's table
 
     def dofs(self):
@@ -79,6 +81,7 @@ def gen_nas(rng, style=None, deep=None):
     kind_of = {}  # child -> 'csuper' | 'seconct'
     internal = [INTERNAL]
     skipped = {}  # child -> set of (a-set dof index) skipped by maps (notall6)
+    shared = [0]  # boundary grids shared by two upstream SEs
 
     for s in list(reversed(order)) + [0]:
         nodes = []
@@ -110,6 +113,18 @@ def gen_nas(rng, style=None, deep=None):
             kind_of[c] = ck
             grp = []
             for k, cn in enumerate(asetnodes[c]):
+                # a boundary grid shared with another (CSUPER type) upstream SE of `s`: both are attached to one
+                # grid of `s`; only own grids of the upstream SEs are shared, so the shared DOF never carry a flag
+                if cn.grid and ck == "csuper" and not cn.srcs and rng.random() < 0.25:
+                    cands = [n for (c2, g2) in inherited if kind_of[c2] == "csuper" for n in g2
+                             if n.grid and all(not asetnodes[c3][k3].srcs for c3, k3 in n.srcs)]
+                    cands = [n for n in cands if all(n is not m for m in grp)]
+                    if cands:
+                        nd = rng.choice(cands)
+                        nd.srcs.append((c, k))
+                        grp.append(nd)
+                        shared[0] += 1
+                        continue
                 keep_id = rng.random() < 0.5 and cn.id not in used
                 nid = cn.id if keep_id else fresh()
                 used.add(nid)
@@ -135,6 +150,12 @@ def gen_nas(rng, style=None, deep=None):
                 table.extend(g2)
         if style in ("csuper-reorder", "mixed") and rng.random() < 0.3:
             rng.shuffle(table)
+        seen_nodes, t2 = set(), []
+        for n in table:  # a shared boundary grid is one node of the table
+            if id(n) not in seen_nodes:
+                seen_nodes.add(id(n))
+                t2.append(n)
+        table = t2
         tables[s] = table
         asetnodes[s] = [n for n in table if any(_in_a(l) for l in n.sets)]
         # rows of the table
@@ -206,7 +227,7 @@ def gen_nas(rng, style=None, deep=None):
                 q = [a or fc[(cn.id, d)] for a, (cn, d, _) in zip(q, arows)]
             if not any(q):
                 continue
-            grp = dict(inh for inh in [(n.src[1], n) for n in tables[s] if n.src and n.src[0] == c])
+            grp = {k: n for n in tables[s] for (cc, k) in n.srcs if cc == c}
             k_of = {id(cn): k for k, cn in enumerate(asetnodes[c])}
             for a, (cn, d, _) in zip(q, arows):
                 flags[(grp[k_of[id(cn)]].id, d)] = a
@@ -222,7 +243,7 @@ def gen_nas(rng, style=None, deep=None):
             for d in n.dofs():
                 rowpos[(n.id, d)] = r
                 r += 1
-        grp = {n.src[1]: n for n in tables[s] if n.src and n.src[0] == c}
+        grp = {k: n for n in tables[s] for (cc, k) in n.srcs if cc == c}
         exp, j = [], 0
         for k, cn in enumerate(asetnodes[c]):
             for d, l in zip(cn.dofs(), cn.sets):
@@ -258,7 +279,7 @@ def gen_nas(rng, style=None, deep=None):
     # a connection is "re-ordered and flagged" when its maps is a true permutation and it carries a True flag
     reordered = [c for c in order if len(maps[c]) and [int(r[0]) for r in maps[c]] != sorted(int(r[0]) for r in maps[c])]
     info = {"style": style, "order": order, "parent": parent, "expected_upa": exp_a, "expected_upq": exp_qv,
-            "depth": max(dep.values()), "children": {s: list(v) for s, v in children.items()}, "reordered": reordered,
+            "depth": max(dep.values()), "shared": shared[0], "children": {s: list(v) for s, v in children.items()}, "reordered": reordered,
             "skipped": {c: sorted(v) for c, v in skipped.items()}, "notall6_q_mismatch": False}
     return nas, info
 
